@@ -161,10 +161,17 @@ def run_shard(spec, acc):
                     log.take()
                     acc.seen('matrix:rectangular')
                     check_matrix(acc, SL, m_s, tests_r, trials_r, 'serial', exact, judge_entry, wit0, log, curve)
-                    m_p = SL.bilform_matrix(tests_r, trials_r, use_mp=True)
-                    log.take()
-                    acc.seen('path:pool')
-                    check_matrix(acc, SL, m_p, tests_r, trials_r, 'pool', exact, judge_entry, wit0, log, curve)
+                    for ncpu in (None, 1):
+                        real_cpu = mp.cpu_count
+                        if ncpu:
+                            mp.cpu_count = lambda: ncpu      # one worker: several columns per task
+                        try:
+                            m_p = SL.bilform_matrix(tests_r, trials_r, use_mp=True)
+                        finally:
+                            mp.cpu_count = real_cpu
+                        log.take()
+                        acc.seen('path:pool')
+                        check_matrix(acc, SL, m_p, tests_r, trials_r, 'pool', exact, judge_entry, wit0, log, curve)
             except Exception as ex:
                 fr = repo_frame(ex)
                 if fr is None:
